@@ -2489,3 +2489,4 @@ def run(ctx):
 def replay(ctx, payload):
     ctx.extra["rule"] = RULE
     eval_cases(ctx, [payload["case"]])
+THEOREMS += ['gen_fp_to_float', 'gen_float_to_fp', 'gen_float_to_fp_all', 'bounds_eq', 'gen_np_init']   # translator tie: generated function bodies = model (Props/C16Gen.lean)
